@@ -88,7 +88,61 @@ func canonResponse(body string) (data string, errs []string, err error) {
 }
 
 // batchOracle states the batching part of the property on the call log of the batch functions.
-func (w *world) batchOracle() string {
+func (w *world) batchOracle() (string, string) {
+	msg := w.batchOracle1()
+	if msg == "" {
+		return "", ""
+	}
+	// F-15c: the only thing wrong is that batch functions also received invocations left behind by an
+	// earlier execution on the same apiRequest (subscription events)
+	if w.execs > 1 && w.staleOnly() {
+		return msg, findingF15c
+	}
+	return msg, ""
+}
+
+// staleOnly: every call is the pending invocations of its round, in order, preceded by invocations
+// whose execution had returned before they were flushed; nothing else is wrong with the log.
+func (w *world) staleOnly() bool {
+	seen := map[int]int{}
+	perRound := map[[2]int]int{}
+	for _, c := range w.calls {
+		perRound[[2]int{c.round, c.k}]++
+		if perRound[[2]int{c.round, c.k}] > 1 || c.round < 1 || c.round > len(w.rounds) {
+			return false
+		}
+		var fresh []int
+		for _, id := range c.items {
+			if id < 0 || id >= len(w.regs) || w.regs[id].k != c.k {
+				return false
+			}
+			seen[id]++
+			if seen[id] > 1 {
+				return false
+			}
+			if w.regs[id].flushed == -1 {
+				if len(fresh) > 0 {
+					return false
+				}
+				continue
+			}
+			fresh = append(fresh, id)
+		}
+		if fmt.Sprint(fresh) != fmt.Sprint(append([]int{}, w.rounds[c.round-1].pendingBefore[c.k]...)) {
+			return false
+		}
+	}
+	for r := 1; r <= len(w.rounds); r++ {
+		for k, pend := range w.rounds[r-1].pendingBefore {
+			if len(pend) > 0 && perRound[[2]int{r, k}] == 0 {
+				return false
+			}
+		}
+	}
+	return true
+}
+
+func (w *world) batchOracle1() string {
 	byRound := map[int]map[int][]callObs{}
 	for _, c := range w.calls {
 		if byRound[c.round] == nil {
@@ -103,7 +157,7 @@ func (w *world) batchOracle() string {
 				return fmt.Sprintf("idle point %d: batch resolver %d was called %d times (items %v) — all pending invocations must be delivered in a single call", r, k, len(cs), callItems(cs))
 			}
 			if len(ro.pendingBefore[k]) == 0 {
-				return fmt.Sprintf("idle point %d: batch resolver %d was called with %v although none of its invocations was pending", r, k, cs[0].items)
+				return fmt.Sprintf("idle point %d: batch resolver %d was called with %v although none of its invocations was pending", r, k, w.regKeys(cs[0].items))
 			}
 		}
 		for k, pend := range ro.pendingBefore {
